@@ -29,6 +29,53 @@ open NetVerif.Model.SendWin NetVerif.Model.Flow NetVerif.Proofs.SendWin NetVerif
 theorem monitor_sound (tr : List Ev) (m : Mon) (h : Mon.init.run tr = .ok m) : TraceOK Ledger.init tr :=
   run_sound tr rel_init h
 
+/-- Conversely, the monitor accepts every trace that satisfies the property: it is exact. -/
+theorem monitor_complete (tr : List Ev) (h : TraceOK Ledger.init tr) : ∃ m, Mon.init.run tr = .ok m := by
+  have key : ∀ (tr : List Ev) (m : Mon) (L : Ledger), Rel m L → TraceOK L tr → ∃ m', m.run tr = .ok m' := by
+    intro tr
+    induction tr with
+    | nil => intro m L _ _; exact ⟨m, rfl⟩
+    | cons e t ih =>
+      intro m L hr ⟨hs, ht⟩
+      have hstep : ∃ m1, m.step e = .ok m1 := by
+        cases e with
+        | settings mfs iw => exact ⟨_, rfl⟩
+        | wu sid inc =>
+          simp only [Mon.step]
+          split
+          · exact ⟨_, rfl⟩
+          · split
+            · exact ⟨_, rfl⟩
+            · split <;> exact ⟨_, rfl⟩
+        | sopen sid =>
+          simp only [Mon.step]
+          by_cases hd : m.dead = true
+          · simp [hd]
+          · have hL : L.dead = false := by rw [← hr.dead]; simpa using hd
+            have hc := hs hL
+            rcases relS_cases (hr.str sid) with ⟨a, _, _⟩ | ⟨w, c, s0, _, b, _, _⟩
+            · simp [hd, a]
+            · rw [hc] at b; cases b
+        | sclose sid => exact ⟨_, rfl⟩
+        | data sid len fin =>
+          obtain ⟨h1, c, s0, hc, hs0, h2⟩ := hs
+          rcases relS_cases (hr.str sid) with ⟨_, b, _⟩ | ⟨w, c', s', a, b, d, e⟩
+          · rw [hc] at b; cases b
+          · rw [hc] at b; cases b
+            rw [hs0] at d; cases d
+            simp only [Mon.step, a]
+            have g1 : ¬ (len : Int) > m.maxFrame := by rw [hr.mf]; omega
+            have g2 : ¬ (0 < len ∧ (len : Int) > w) := by intro ⟨p, q⟩; have := h2 (by omega); omega
+            have g3 : ¬ (0 < len ∧ (len : Int) > m.connWin) := by
+              intro ⟨p, q⟩; have := h2 (by omega); have := hr.conn; omega
+            rw [if_neg g1, if_neg g2, if_neg g3]
+            exact ⟨_, rfl⟩
+        | stop => exact ⟨_, rfl⟩
+      obtain ⟨m1, e1⟩ := hstep
+      obtain ⟨m', e'⟩ := ih m1 (L.step e) (step_sound hr e1).2 ht
+      exact ⟨m', by simp only [Mon.run, e1, e']⟩
+  exact key tr Mon.init Ledger.init rel_init h
+
 /-- Ledger after a prefix. -/
 def ledgerAfter (L : Ledger) : List Ev → Ledger
   | [] => L
@@ -145,5 +192,130 @@ theorem consume_progress (s : Send) (sid len : Nat) (limit a : Int) (h7 : IsInt3
         simp only [Option.map_some, Option.some.injEq, Prod.mk.injEq] at hc
         have hn : (n : Int) = len := by rw [← hc.1]
         first | omega | (rw [← hbnd]; simp only [Int.min_def]; split <;> omega)
+
+/-! ### the same `Consume` as in the write-scheduler model (C12) -/
+
+open NetVerif.Model.WriteSched in
+/-- size of the piece a `Consume` result hands to the writer -/
+def pieceSize : NetVerif.Model.WriteSched.CR → Option Nat
+  | .none => none
+  | .whole f => some f.dataSize
+  | .split c _ => some c.dataSize
+
+open NetVerif.Model.WriteSched in
+/-- `Send.consume` (built from `Flow.Outflow`, int32 wrap-around included) and the scheduler model's
+`Frame.consume` (C12, unbounded arithmetic on `Env`) agree on open streams with int32 counters: same decision,
+same piece size, same windows afterwards. So C12's scheduler theorems speak about this mechanism. -/
+theorem consume_matches_writesched (s : Send) (sid tag off len : Nat) (fin last : Bool) (limit a : Int)
+    (h7 : IsInt32 s.conn) (ha : IsInt32 a) (ea : tget s.wins sid = some a) :
+    (s.consume sid len limit).map (·.1) = pieceSize ((Frame.data sid tag off len fin last).consume s.toEnv limit).2 ∧
+    ∀ n s', s.consume sid len limit = some (n, s') →
+      s'.toEnv.connWin = ((Frame.data sid tag off len fin last).consume s.toEnv limit).1.connWin ∧
+      s'.toEnv.maxFrame = ((Frame.data sid tag off len fin last).consume s.toEnv limit).1.maxFrame ∧
+      ∀ j, s'.toEnv.win j = ((Frame.data sid tag off len fin last).consume s.toEnv limit).1.win j := by
+  have hav : s.toEnv.avail sid = (s.flow a).available := by
+    simp only [Env.avail, Send.toEnv, ea, Option.getD_some, Send.flow, Outflow.available, Int.min_def]
+    repeat' split
+    all_goals omega
+  have hallowed : s.toEnv.allowed sid limit =
+      (if s.maxFrame < (if limit < (s.flow a).available then limit else (s.flow a).available)
+        then s.maxFrame else (if limit < (s.flow a).available then limit else (s.flow a).available)) := by
+    rw [Env.allowed, hav]
+    simp only [Int.min_def, Send.toEnv]
+    repeat' split
+    all_goals omega
+  have av := avail_le s a
+  have htake : ∀ (x : Int), (s.toEnv.take sid x).connWin = s.conn - x ∧ (s.toEnv.take sid x).maxFrame = s.maxFrame ∧
+      ∀ j, (s.toEnv.take sid x).win j =
+        ({ s with conn := s.conn - x, wins := tset s.wins sid (a - x) } : Send).toEnv.win j := by
+    intro x
+    refine ⟨rfl, rfl, ?_⟩
+    intro j
+    simp only [Env.take, Send.toEnv, tget_tset]
+    by_cases hj : j = sid
+    · subst hj; simp [ea]
+    · have : ¬ sid = j := fun h => hj h.symm
+      simp [hj, this]
+  unfold Send.consume Frame.consume
+  simp only [ea, hallowed]
+  by_cases hl : len = 0
+  · subst hl
+    simp only [if_true, Option.map_some, pieceSize, Frame.dataSize, true_and]
+    intro n s' h
+    simp only [Option.some.injEq, Prod.mk.injEq] at h
+    obtain ⟨_, rfl⟩ := h
+    exact ⟨rfl, rfl, fun _ => rfl⟩
+  · simp only [hl, if_false]
+    generalize hal : (if s.maxFrame < (if limit < (s.flow a).available then limit else (s.flow a).available)
+        then s.maxFrame else (if limit < (s.flow a).available then limit else (s.flow a).available)) = allowed
+    have hle : allowed ≤ (s.flow a).available := by subst hal; split <;> split <;> omega
+    by_cases hz : allowed ≤ 0
+    · simp [hz, pieceSize]
+    · simp only [hz, if_false]
+      by_cases hgt : (len : Int) > allowed
+      · simp only [hgt, if_true]
+        rw [take_some h7 sid a allowed ha (by omega) hle]
+        simp only [Option.map_some, pieceSize, Frame.dataSize, true_and]
+        intro n s' h
+        simp only [Option.some.injEq, Prod.mk.injEq] at h
+        obtain ⟨_, rfl⟩ := h
+        have := htake allowed
+        exact ⟨this.1.symm, this.2.1.symm, fun j => (this.2.2 j).symm⟩
+      · simp only [hgt, if_false]
+        rw [take_some h7 sid a len ha (by omega) (by omega)]
+        simp only [Option.map_some, pieceSize, Frame.dataSize, true_and]
+        intro n s' h
+        simp only [Option.some.injEq, Prod.mk.injEq] at h
+        obtain ⟨_, rfl⟩ := h
+        have := htake len
+        exact ⟨this.1.symm, this.2.1.symm, fun j => (this.2.2 j).symm⟩
+
+/-- `awaitFlowControl` (client): with a positive `available()` and a non-empty body chunk the wait ends with
+`min(maxBytes, available, maxFrameSize)` > 0 bytes taken; with `available() ≤ 0` it keeps waiting. -/
+theorem await_progress (s : Send) (sid maxBytes : Nat) (a : Int) (h7 : IsInt32 s.conn) (ha : IsInt32 a)
+    (ea : tget s.wins sid = some a) (hmb : 0 < maxBytes) (hmf : 0 < s.maxFrame) :
+    (0 < (s.flow a).available →
+      ∃ n s', s.await sid maxBytes = some (n, s') ∧ 0 < n ∧
+        (n : Int) = min (min (s.flow a).available (maxBytes : Int)) s.maxFrame ∧
+        s'.conn = s.conn - n ∧ tget s'.wins sid = some (a - n)) ∧
+    ((s.flow a).available ≤ 0 → s.await sid maxBytes = none) := by
+  constructor
+  · intro hav
+    unfold Send.await
+    simp only [ea, gt_iff_lt, hav, if_true]
+    generalize hal : (if s.maxFrame < (if (maxBytes : Int) < (s.flow a).available then (maxBytes : Int) else (s.flow a).available)
+        then s.maxFrame else (if (maxBytes : Int) < (s.flow a).available then (maxBytes : Int) else (s.flow a).available)) = t2
+    have hbnd : t2 = min (min (s.flow a).available (maxBytes : Int)) s.maxFrame := by
+      subst hal; simp only [Int.min_def]; split <;> split <;> (try split) <;> omega
+    have hpos : 0 < t2 ∧ t2 ≤ (s.flow a).available := by
+      rw [hbnd]; simp only [Int.min_def]; split <;> split <;> omega
+    rw [take_some h7 sid a t2 ha (by omega) hpos.2]
+    have e : ((t2.toNat : Nat) : Int) = t2 := Int.toNat_of_nonneg (by omega)
+    refine ⟨t2.toNat, _, rfl, by omega, by rw [e, hbnd], by simp only [e], ?_⟩
+    simp only [tget_tset, if_true, ea, Option.map_some, e]
+  · intro hav
+    unfold Send.await
+    have : ¬ (s.flow a).available > 0 := by omega
+    simp [ea, this]
+
+/-! ### non-vacuity: a history in which SETTINGS drives a stream window negative
+
+Initial window 100; 300 bytes queued → 100 sent. SETTINGS_INITIAL_WINDOW_SIZE := 10 makes the window −90:
+nothing is sent, WINDOW_UPDATE(89) still leaves −1, WINDOW_UPDATE(2) reopens it by one byte; a later
+WINDOW_UPDATE that would lift the window above 2^31-1 resets the stream instead. -/
+
+def exActs : List Act :=
+  [.settings none (some 100), .sopen 1, .send 1 300 false 2147483647, .settings none (some 10),
+   .send 1 200 false 2147483647, .wu 1 89, .send 1 200 false 2147483647, .wu 1 2, .send 1 200 false 2147483647,
+   .wu 1 5, .wu 1 2147483647, .send 1 199 true 2147483647]
+
+example : (Send.init.run .server exActs).2 =
+    [.settings none (some 100), .sopen 1, .data 1 100 false, .settings none (some 10), .wu 1 89, .wu 1 2,
+     .data 1 1 false, .wu 1 5, .wu 1 2147483647, .sclose 1] := by decide
+
+example : ((Send.init.run .server (exActs.take 4)).1.wins, (Send.init.run .server (exActs.take 4)).1.conn) =
+    ([(1, -90)], 65435) := by decide
+
+example : ∃ m, Mon.init.run (Send.init.run .client exActs).2 = .ok m := mechanism_accepted .client exActs
 
 end NetVerif.Proofs.C08
